@@ -88,6 +88,13 @@ Theorem C08_events_respect_threshold : forall (dt : xv) (dop : cmpop) (f o t : x
   gen_make_contingency_manager dt dop f o (Some t) (Some op) = (event_of op t f, event_of op t o).
 Proof. exact events_respect_threshold. Qed.
 Print Assumptions C08_events_respect_threshold.
+(* ThresholdEventOperator.__init__ stores the defaults it is given unchanged (0, negatives, ... included); only an omitted
+   argument takes the documented default 0.001 / operator.ge *)
+Theorem C08_constructor_keeps_defaults : forall (t : xv) (op : cmpop),
+  gen_init_event_threshold (Some t) = t /\ gen_init_op_fn (Some op) = op /\
+  gen_init_event_threshold None = XFin (1 # 1000) /\ gen_init_op_fn None = OpGe.
+Proof. exact constructor_keeps_defaults. Qed.
+Print Assumptions C08_constructor_keeps_defaults.
 (* the defaults are used exactly for None *)
 Theorem C08_events_fallback_only_for_none : forall dt dop f o t op,
   gen_make_contingency_manager dt dop f o t op =
